@@ -51,6 +51,18 @@ CLAIMED = {
         note="counters within their byte widths (full-move number <= 128, half-move clock <= 255); unicode.IsDigit table generated from the toolchain",
         technique="Coq proof (byte-level parser/printer inverse, totality by induction over runes) + differential correspondence check",
         ref="DESIGN.md section 6, C11"),
+    "C12": dict(
+        text="Coq theorems, for all 64 squares and ALL occupancies (no bound): the eight one-step shifts and the fills are "
+             "characterised bit by bit; the ray walker equals the geometric 'open line up to and including the first blocker' set; "
+             "edge squares and the origin bit are irrelevant; rook/bishop/queen AttacksBySquare (as lookup of occ & mask) equal the "
+             "geometric sets; for the GENERATED magic numbers the table fill of magic.Init completes without collision and the lookup "
+             "equals the walker for every occupancy (perfect-hash condition checked by the kernel over all 107,648 subsets), and for ANY "
+             "multiplier for which the fill succeeds; knight/king/pawn tables and pawn pushes equal their geometric definitions; for "
+             "positions with well-formed views SquareAttackedBy is exactly the set of attacking pieces and IsInCheck is exact. Tied to "
+             "the code EXHAUSTIVELY for tables and masks, by random occupancies beyond, and on sampled positions for attackers.",
+        note="attackers/in-check for positions satisfying the view clauses of the C10 invariant; generated tables/magics re-checked by the kernel whenever they change",
+        technique="Coq proof (bit-level lemmas, induction along rays, kernel-evaluated perfect-hash check on generated magics) + exhaustive correspondence check",
+        ref="DESIGN.md section 6, C12"),
     "C14": dict(
         text="Coq theorems over the Gallina transliteration of Get/PotentiallySave/Reset (bucket scan, replacement rule, packed "
              "age/bound byte, int16 mate adjustment) for ALL operation sequences from the empty table (induction with a ghost log of "
